@@ -133,6 +133,9 @@ theorem translate_good {s : St} (g : Good s) (ch : Char) : OutGood (translate s 
   by_cases h3 : s.y * 6 + 6 > i32Max
   · simp only [h3, if_true]; trivial
   simp only [h3, if_false]
+  by_cases h4 : s.x ≥ maxSize ∨ lastLineOf s > maxSize
+  · simp only [h4, if_true]; trivial
+  simp only [h4, if_false]
   have hg := growRows_spec g.rows g.height (lastLineOf s)
   revert hg
   cases growRows s.rows (lastLineOf s) with
@@ -217,7 +220,7 @@ theorem defineColor_arm {s : St} (g : Good s) : ArmOK s (defineColor s) := by
   unfold defineColor
   by_cases h1 : s.nums.length > 1
   · simp only [h1, if_true]
-    by_cases h5 : s.nums.length ≠ 5
+    by_cases h5 : s.nums.length ≠ 5 ∨ s.color ≥ maxColors
     · rw [if_pos h5]; trivial
     · rw [if_neg h5]
       have h5' : s.nums.length = 5 := by omega
@@ -299,8 +302,10 @@ theorem parseChar_good {s : St} (g : Good s) (ch : Char) : OutGood (parseChar s 
     · exact ⟨g.rows, g.height, g.palPos, g.palLe⟩
     · split
       · rename_i n _
-        exact andThen_good (repeatN_good (fun t => sixelData t ch) (fun t gt => sixelData_good gt ch) n g)
-          (fun s' h => ⟨h.rows, h.height, h.palPos, h.palLe⟩)
+        split
+        · trivial
+        · exact andThen_good (repeatN_good (fun t => sixelData t ch) (fun t gt => sixelData_good gt ch) n g)
+            (fun s' h => ⟨h.rows, h.height, h.palPos, h.palLe⟩)
       · trivial
 
 theorem run_good {s : St} (g : Good s) (cs : List Char) : OutGood (run s cs) := by
